@@ -225,3 +225,72 @@ Proof. vm_compute. eexists. repeat split. Qed.
 Example ex_eta : entries_to_apply 4 (map (fun i => mk_rentry 0 1 i None) [3; 4; 5; 6]) =
                  Some (map (fun i => mk_rentry 0 1 i None) [5; 6]).
 Proof. reflexivity. Qed.
+
+(** ---- crash points: every prefix of the write units of an operation ---- *)
+(** the units of an operation, run one after the other, are the operation *)
+Theorem units_compose w o : (forall u, o <> WUnit u) -> wrun w (units_of o) = wstep w o.
+Proof.
+  intros Hn. destruct o; cbn; try reflexivity; try (destruct (write_raft_entry w items); reflexivity).
+Qed.
+
+(** what a restarted node needs: the log is the reference log and the stored commit index is
+    inside it *)
+Definition commit_ok (w : wal) (r : rlog) : Prop :=
+  forall t v c, w_hs w = Some (t, v, c) -> c <= base r + N.of_nat (length (ents r)).
+Definition wal_consistent (w : wal) (r : rlog) : Prop := Inv w r /\ commit_ok w r.
+
+(** SaveEntry as the consensus library calls it: the batch does not touch committed entries
+    (its first index is above the stored commit) and the new commit is inside the new log.  Then
+    the state after EVERY prefix of its two write units — nothing, entries only, entries and hard
+    state — is consistent: a crash between the two transactions leaves the old commit over the
+    new log. *)
+Theorem crash_prefix_consistent w r items hs k :
+  wal_consistent w r -> batch_wf r items ->
+  (forall t v c, w_hs w = Some (t, v, c) -> match items with [] => True | it0 :: _ => c < e_index (fst it0) end) ->
+  snd hs <= base r + N.of_nat (length (ents (spec_write r items))) ->
+  exists w', wrun w (firstn k (save_units items hs)) = Some w' /\
+             wal_consistent w' (match k with O => r | _ => spec_write r items end).
+Proof.
+  intros [HI HC] Hwf Hold Hnew. destruct hs as [[t0 v0] c0]. cbn [snd] in Hnew.
+  destruct items as [|it0 tl]; [contradiction|].
+  destruct (write_raft_entry w (it0 :: tl)) as [w1|] eqn:E1; [|discriminate].
+  pose proof (write_refines _ _ _ _ HI Hwf E1) as HI1.
+  destruct (write_entries_keeps_meta _ _ _ E1) as (Hhs & _).
+  assert (Hb : base (spec_write r (it0 :: tl)) = base r) by reflexivity.
+  assert (C1 : commit_ok w1 (spec_write r (it0 :: tl))).
+  { intros t v c Hc. rewrite Hhs in Hc. specialize (Hold t v c Hc). cbn in Hold.
+    destruct Hwf as (Hlo & Hhi & Hcons). rewrite Hb. unfold spec_write. cbn [ents].
+    rewrite app_length, map_length, firstn_length. cbn [length]. lia. }
+  destruct k as [|[|k]]; cbn [firstn save_units wrun wstep].
+  - exists w. split; [reflexivity|]. split; assumption.
+  - rewrite E1. exists w1. split; [reflexivity|]. split; assumption.
+  - rewrite E1. cbn. rewrite firstn_nil. cbn. eexists. split; [reflexivity|]. split.
+    + destruct HI1 as (A & B & C & D). repeat split; auto.
+    + intros t v c Hc. cbn in Hc. inversion Hc; subst. exact Hnew.
+Qed.
+
+(** the other order — hard state first, as a variant of SaveEntry would do — is not crash safe:
+    a Ready that carries entries 4..5 together with commit 5 leaves, after its first unit, a
+    commit index beyond the durable log *)
+Theorem hardstate_first_not_crash_safe :
+  let w0 := wrun wal_empty [WIdent (1, 1, 1, 1); WWrite [E 0 1 1 1; E 0 1 2 2; E 0 1 3 3]; WHard (1, 1, 3)] in
+  match w0 with
+  | Some w => match wrun w (firstn 1 [WHard (1, 1, 5); WWrite [E 0 1 4 4; E 0 1 5 5]]) with
+              | Some w' => last_index w' = 3 /\ w_hs w' = Some (1, 1, 5)
+              | None => False
+              end
+  | None => False
+  end.
+Proof. vm_compute. split; reflexivity. Qed.
+
+(** ClearWAL and ResetWAL delete the identity in their first unit and never write one: in every
+    state a crash can leave inside them the node has no WAL identity (HasWal answers false and
+    the node starts over), so their intermediate states are never handed to the library *)
+Theorem clear_reset_prefix_no_identity w o k w' :
+  (o = WClear \/ exists t c, o = WReset t c) -> (0 < k)%nat ->
+  wrun w (firstn k (units_of o)) = Some w' -> w_id w' = None.
+Proof.
+  intros Ho Hk H. destruct Ho as [->|(t & c & ->)]; cbn [units_of] in H.
+  - destruct k as [|[|[|k]]]; [lia|..]; cbn in H; inversion H; subst; reflexivity.
+  - destruct k as [|[|[|[|[|[|k]]]]]]; [lia|..]; cbn in H; inversion H; subst; reflexivity.
+Qed.
